@@ -488,6 +488,9 @@ fn string_number(vm: &mut Vm) -> Result<VCell, Error> {
         _ => 10_u32,
     };
     let s = pop_string(vm, "string->number")?;
+    if !(2..=36).contains(&radix) {
+        return Err(InvalidSyntax(format!("{} is not a valid radix", radix)));
+    }
     let s = s.borrow();
     let s = s.as_str();
     match Number::parse_with_exactness(s, Exactness::Unspecified, radix) {
